@@ -121,3 +121,12 @@ func C01_Sources() {
 type onlyReader struct{ r *strings.Reader }
 
 func (o onlyReader) Read(p []byte) (int, error) { return o.r.Read(p) }
+
+// Selftest_Engine: a tiny fixed harness used by setup to see that the engine,
+// the solver pipe and the loader work.
+func Selftest_Engine() {
+	r := nd.RuneASCII()
+	nd.Assume(r >= 'a' && r <= 'c')
+	cmds, _, err, _ := parseRunes(nil, []rune{r, ' ', 'x'})
+	nd.Assert(err == nil && len(cmds) == 1, "selftest parse")
+}
